@@ -138,8 +138,19 @@ def run(cx):
         rets = b.return_blocks()
         ob.require(all(b.dominates(ri[0].bb, r) for r in rets), "route/always-registers", "a normal return of route() skips routes.insert", b.path)
         sv = strip_identity(arg_origin(ri[0], 2, o))
-        ok = sv[0] == "call" and name_matches(sv[1], "Result::unwrap_or_else") and term_has_call(sv, f"{R}::try_downcast") and mentions_param(sv, "service")
-        ob.require(ok, "route/service", f"registered service is {show(sv)[:100]}", b.path)
+        # the value stored is the given service itself: try_downcast(service) unwrapped to the Route it already is, or wrapped
+        # by Route::new otherwise - as `unwrap_or_else(Route::new)` or as a match on the downcast result
+        def one(alt):
+            alt = strip_identity(alt)
+            if not (term_has_call(alt, f"{R}::try_downcast") and mentions_param(alt, "service")):
+                return False
+            if alt[0] == "call" and name_matches(alt[1], "Result::unwrap_or_else"):
+                return True
+            if alt[0] == "call" and name_matches(alt[1], f"{R}::route::Route::new"):
+                return any(x[0] == "variant" and x[2] == "Err" for x in walk(alt))
+            return alt[0] in ("field", "variant") and any(x[0] == "variant" and x[2] == "Ok" for x in walk(alt)) and not any(x[0] == "call" and not name_matches(x[1], f"{R}::try_downcast") for x in walk(alt))
+        alts = list(sv[1]) if sv[0] == "phi" else [sv]
+        ob.require(all(one(x) for x in alts), "route/service", f"registered service is {show(sv)[:100]}", b.path)
         td = [c for c in b.calls_to(f"{R}::try_downcast")]
         ob.require(len(td) == 1 and td[0].ga[0] == f"{R}::route::Route", "route/no-reboxing", "try_downcast::<Route> not used (merge would re-box layered routes)", b.path)
         # matcher insert keeps id->path
